@@ -223,6 +223,7 @@ def tasks(tier, seed):
     # (d') valid data: numeric dtypes of every width / signedness, columns that join the table after the Database was made
     t.append(dict(part='valid_data', what='dtypes'))
     t.append(dict(part='valid_data', what='late'))
+    t.append(dict(part='valid_literals'))
     # (c) missing data
     for fi in range(len(MD_FORMULAS)):
         for (r, c) in itertools.product(range(3), range(len(MD_COLS))):
@@ -269,6 +270,8 @@ def run_task(task):
         _structural_nodb(rec)
     elif part == 'valid_data':
         _valid_data(task, rec)
+    elif part == 'valid_literals':
+        _valid_literals(rec)
     elif part == 'emptied':
         _emptied(task, rec)
     elif part == 'missing':
@@ -544,6 +547,58 @@ VD_ROLES = {
     'key': ('elem', ('var', 'late'), ((0, ('var', 'x1')), (1, ('beta', 'b_z')), (2, ('*', ('var', 'x2'), ('beta', 'B2'))))),
 }
 VD_WAYS = ['at-creation', 'assigned-to-data-afterwards', 'add_column', 'define_variable']
+
+
+def _valid_literals(rec):
+    """A specification without a fault is never rejected: plain numbers written into a formula under every numeric type a user
+    meets (Python int / float / bool, numpy integers and floats of several widths, numpy bool) x every binary operator, on
+    either side of a variable or a parameter; the value must be the ordinary one."""
+    import math
+    import numpy as np
+    import biogeme.expressions as ex
+    from vf.engine import make_db
+    rows = [dict(x=1.5), dict(x=2.0), dict(x=0.5)]
+    db = make_db(rows, ['x'])
+    lits = [('int', 2), ('float', 2.0), ('bool', True), ('np.int64', np.int64(2)), ('np.int32', np.int32(2)), ('np.uint8', np.uint8(2)),
+            ('np.float64', np.float64(2.0)), ('np.float32', np.float32(2.0)), ('np.float16', np.float16(2.0)), ('np.bool_', np.bool_(True))]
+    ops = {
+        '+': (lambda a, b: a + b, lambda u, v: u + v), '-': (lambda a, b: a - b, lambda u, v: u - v),
+        '*': (lambda a, b: a * b, lambda u, v: u * v), '/': (lambda a, b: a / b, lambda u, v: u / v),
+        '**': (lambda a, b: a ** b, lambda u, v: math.pow(u, v)),
+        'min': (lambda a, b: ex.bioMin(a, b), min), 'max': (lambda a, b: ex.bioMax(a, b), max),
+        '>': (lambda a, b: a > b, lambda u, v: float(u > v)), '<=': (lambda a, b: a <= b, lambda u, v: float(u <= v)),
+    }
+    for tname, lit in lits:
+        for op, (mk, ref) in ops.items():
+            for side in ('right', 'left'):
+                for partner in ('variable', 'parameter'):
+                    if side == 'left' and op in ('min', 'max', '>', '<=', '**'):
+                        continue            # (a literal on the left of these is written with the operands swapped by Python itself)
+                    e = ex.Variable('x') if partner == 'variable' else ex.Beta('bq', 1.5, None, None, 0)
+                    key = ('valid_literals', tname, op, side, partner)
+                    case = dict(part='valid_literals')
+                    try:
+                        expr = mk(e, lit) if side == 'right' else mk(lit, e)
+                        got = [float(v) for v in np.atleast_1d(expr.get_value_c(database=db, prepare_ids=True))]
+                    except Exception as exc:
+                        rec.case(key, (tname, op, side, partner, type(exc).__name__), outcome='rejected')
+                        rec.violation(f'C12|valid-specification-rejected-{type(exc).__name__}|number-literal-of-type:{tname}',
+                                      f'x {op} {tname}(2) ({side}, {partner}): {type(exc).__name__}: {str(exc)[:160]}', case)
+                        from vf.engine import is_engine_error
+                        if is_engine_error(exc):
+                            rec.retire = True
+                            return
+                        continue
+                    lv = float(lit)
+                    want = [ref(r['x'] if partner == 'variable' else 1.5, lv) if side == 'right' else ref(lv, r['x'] if partner == 'variable' else 1.5)
+                            for r in rows]
+                    if partner == 'parameter' and len(got) == 1:
+                        want = want[:1]
+                    ok = len(got) == len(want) and all(R.close(a, b, rel=1e-9) for a, b in zip(got, want))
+                    rec.case(key, (tname, op, side, partner, [round(v, 8) for v in got]), outcome=('accepted', ok))
+                    if not ok:
+                        rec.violation(f'C12|valid-specification-wrong-value|number-literal-of-type:{tname}',
+                                      f'x {op} {tname}(2) ({side}, {partner}): {got} expected {want}', case)
 
 
 def _valid_data(task, rec):
@@ -1116,6 +1171,8 @@ def replay(case):
         _plant_engine(case, rec)
     elif part == 'valid_data':
         _valid_data(case, rec)
+    elif part == 'valid_literals':
+        _valid_literals(rec)
     elif part == 'structural_nodb':
         _structural_nodb(rec)
     elif part == 'missing_model':
